@@ -1,5 +1,6 @@
 """C12 -- Exceptions unwind precisely and leave the machine consistent."""
 import sys
+import json
 from vlib import core, terms
 
 sys.path.insert(0, core.ROOT)
@@ -38,17 +39,76 @@ def contains(t, names):
     return False
 
 
+# the property text's "runs its cleanup exactly once WHEN the goal ... is cut / fails / raises / finishes": directly after each
+# construct that ends the goal, the cleanup must have run exactly once (the model compares cleanup entries of non-deterministic
+# goals only as a multiset, so the timing is probed here against the text)
+TIMING_PROG = r"""
+:- use_module(library(lists)).
+:- use_module(library(iso_ext)).
+:- dynamic(c12ran/1).
+c12g(Id) :- setup_call_cleanup(true, member(_, [1,2,3]), assertz(c12ran(Id))).
+c12st(Id, s(N)) :- findall(x, c12ran(Id), L), length(L, N).
+c12t(naf_inline, S) :- \+ c12g(1), c12st(1, S).
+c12t(naf_inline, S) :- c12st(1, S).
+c12t(naf_call, S) :- G = (\+ c12g(2)), ( call(G) -> true ; true ), c12st(2, S).
+c12t(ite, S) :- ( c12g(3) -> true ; true ), c12st(3, S).
+c12t(once, S) :- once(c12g(4)), c12st(4, S).
+c12t(cut, S) :- c12g(5), !, c12st(5, S).
+c12t(nafnaf, S) :- \+ \+ c12g(6), c12st(6, S).
+c12t(exhaust, S) :- ( c12g(7), fail ; true ), c12st(7, S).
+c12t(throw, S) :- catch((c12g(8), throw(b)), b, true), c12st(8, S).
+c12t(findall, S) :- findall(x, c12g(9), _), c12st(9, S).
+c12t(callcut, S) :- call((c12g(10), !)), c12st(10, S).
+c12t(forall, S) :- forall(c12g(11), true), c12st(11, S).
+c12t(ite_cond_conj, S) :- ( c12g(12), true -> c12st(12, S) ; S = else ).
+c12t(det, S) :- setup_call_cleanup(true, true, assertz(c12ran(13))), c12st(13, S).
+c12t(fails, S) :- ( setup_call_cleanup(true, fail, assertz(c12ran(14))) -> true ; true ), c12st(14, S).
+c12t(raises, S) :- catch(setup_call_cleanup(true, throw(b), assertz(c12ran(15))), b, true), c12st(15, S).
+c12t(nested_cut, S) :- setup_call_cleanup(true, ( c12g(16) ; true ), assertz(c12ran(17))), !, c12st(16, S1), c12st(17, S2), S = p(S1,S2).
+c12t(later_still_once, S) :- \+ c12g(18), fail.
+c12t(later_still_once, S) :- ( member(_, [1,2]), fail ; true ), !, c12st(18, S).
+"""
+TIMING = [("naf_inline", ["s(1)"]), ("naf_call", ["s(1)"]), ("ite", ["s(1)"]), ("once", ["s(1)"]), ("cut", ["s(1)"]), ("nafnaf", ["s(1)"]),
+          ("exhaust", ["s(1)"]), ("throw", ["s(1)"]), ("findall", ["s(1)"]), ("callcut", ["s(1)"]), ("forall", ["s(1)"]), ("ite_cond_conj", ["s(1)"]),
+          ("det", ["s(1)"]), ("fails", ["s(1)"]), ("raises", ["s(1)"]), ("nested_cut", ["p(s(1),s(1))"]), ("later_still_once", ["s(1)"])]
+
+
+def timing_probes(ctx, failures, tie_breaks):
+    from vlib import terms
+    jobs = [{"id": "timing", "consult": TIMING_PROG, "queries": ["c12t(%s, S)." % k for k, _ in TIMING], "max_answers": 4,
+             "timeout_ms": 5000, "fresh": True}]
+    res = core.vrun_query(ctx.prop, jobs, tag="timing")
+    rs = (res.get("timing") or {}).get("results") or []
+    if len(rs) != len(TIMING):
+        tie_breaks.append({"kind": "harness", "what": "timing probes gave no result", "detail": json.dumps(res)[:500]})
+        return 0
+    for (k, exp), r in zip(TIMING, rs):
+        got = []
+        for a in r:
+            if isinstance(a, dict) and "b" in a:
+                got.append(terms.to_prolog(terms.from_json(a["b"]["S"])))
+            elif a != "false":
+                got.append(json.dumps(a)[:80])
+        if got != exp:
+            failures.append({"key": "scc-cleanup-not-run-once-when-goal-ends:" + k,
+                             "what": "directly after the construct that ends the goal of setup_call_cleanup/3 the cleanup has not run exactly once",
+                             "input": "c12t(%s, S).   %% with the clauses of TIMING_PROG in checks/C12.py" % k, "impl": "S = %s" % got, "spec": "S = %s" % exp,
+                             "property_fails": True})
+    return len(TIMING)
+
+
 def run(ctx):
-    nprog = ctx.scale(360, 9000)
+    nprog = ctx.scale(1000, 9000)
     ev, nontrivial, dist, failures, tie_breaks, samples = S.run_differential(
         ctx, FEATS, nprog, check_fn="check_c12", imports=S.IMPORTS + "\nFrom V Require Import C12.Model.", log=True,
         ok_codes=(0,), soft_codes={5: "prefix_only_ambiguous_arith_error", 6: "equal_up_to_cleanup_position"},
         depth=[1, 2, 3, 3, 4],
         nontrivial_fn=lambda prog, q, o: (contains(q, ("catch", "throw", "setup_call_cleanup")) or
                                           any(contains(b, ("catch", "throw", "setup_call_cleanup")) for _, b in prog)) and bool(o[1] or o[2] is not None or o[3]))
+    ev += timing_probes(ctx, failures, tie_breaks)
     # cross-cutting: every uncaught error observed must be error(Formal, Context) or a user ball of the generated shapes
     return {"evaluations": ev, "distinct_nontrivial": len(nontrivial),
-            "rule": ("random programs over the C07 control constructs plus catch/3, throw/1 (balls: atoms, integers, structures and lists sharing variables "
+            "rule": ("17 fixed timing probes (cleanup has run exactly once directly after the goal was cut by \\+, ->, once, !, call((G,!)), exhausted, failed, raised, finished), then random programs over the C07 control constructs plus catch/3, throw/1 (balls: atoms, integers, structures and lists sharing variables "
                      "with the context, error(my_error(..),..)), setup_call_cleanup/3 and log/1, clause-body nesting up to 4; catchers that match, partially "
                      "match or do not match; 3 queries per program, each through a compiled clause and through call/1; compared: ordered answers, uncaught "
                      "ball (formal only), side-effect log; non-trivial = distinct (program, query) using catch/throw/setup_call_cleanup with an answer, "
